@@ -26,6 +26,12 @@ func VerifConstants() map[string]int64 {
 	}
 }
 
+// VerifOnPacket hands a received packet to the engine through an arbitrary reader (e.g. a multi-buffer wire reader,
+// which the dummy face cannot produce).
+func (e *Engine) VerifOnPacket(reader enc.ParseReader) error {
+	return e.onPacket(reader)
+}
+
 // VerifProbe is the Result value passed to Express callbacks by VerifPitDump so that a test harness can
 // identify which pending Interest sits in which trie node. It is not a value the engine ever produces.
 const VerifProbe ndn.InterestResult = -77
